@@ -16,6 +16,29 @@ CHECKS = {
         note="Trusted: Coq kernel + vm_compute; translator gen_emitret.py; hand transcription of the two loops (validated by correspondence); harness. "
              "Handlers returning the internal (SkipAll, x) tuple are outside the fragment; should_propagate_handler_exception is modelled as propagation.",
         ref="DESIGN.md section 7 C04"),
+    "C06": dict(
+        technique="Coq proof (invariant + 'a context body restores the state' by induction over history trees) relating the context machine to a stack-of-booleans reference + in-coqc correspondence",
+        text="C06_delivery: for every history tree (enabled/disabled/exec-style contexts of any number of AST- and system-level tracers, site executions, "
+             "raises, try blocks) from any state satisfying the invariant, the set of tracers whose handlers run at every executed top-level / function / "
+             "lambda / loop-in-function site equals what the per-tracer stack of booleans says; C06_initial: a fresh process satisfies the hypotheses. "
+             "model/Ctx.v transcribes tracing_non_context, the cleanup callback, _enable/_disable_tracing and the guard tests of rewritten code; it is tied "
+             "to tracer.py by 300 generated histories run on real tracers, comparing process state snapshots, per-site deliveries (AST and system-trace) "
+             "and post-run behaviour. The stack-of-booleans reference in Python is the search oracle.",
+        note="Trusted: Coq kernel + vm_compute; hand transcription (validated by correspondence); harness. Guards never activated (C10); no user sys.settrace "
+             "calls inside histories (C09); system-trace deliveries are compared model-vs-implementation and by the oracle but are not yet part of the theorem.",
+        ref="DESIGN.md section 7 C06"),
+    "C07": dict(
+        technique="Coq proof (core_eq: every context body restores the process-global fields; induction over history trees) + in-coqc correspondence with state snapshots",
+        text="C07_restore: every history tree run from a state with no active context ends with the tracer stack, every tracer's flags, the emit hook, guard "
+             "names, thunk/lambda helpers, the interpreter's trace function, the patched settrace/gettrace stack and the meta-path finder count as before - "
+             "with raises at any position, caught at any depth or escaping everything. C07_flags_defined + C07_after: code compiled while tracing takes its "
+             "pristine branch afterwards (no delivery, no NameError). Tied to tracer.py/import_hooks.py by 300 generated histories (system-level tracers, "
+             "pre-installed trace function, imports with a raising finder) with snapshots of builtins, sys.gettrace/settrace, sys.meta_path, importlib cache "
+             "functions and the re-entrancy switches before and after.",
+        note="Trusted: Coq kernel + vm_compute; hand transcription (validated by correspondence); harness. The boolean flags TRACING_ENABLED / "
+             "FUNCTION_TRACING_ENABLED staying in builtins as False are not counted as hooks or guards. sys.meta_path contents and importlib cache functions are "
+             "observed on the implementation only (the model has a finder count).",
+        ref="DESIGN.md section 7 C07"),
     "C16": dict(
         technique="Coq proof (induction over behaviour trees: invariant on the two switches and running-handler depth) + in-coqc correspondence with handlers that run instrumented code",
         text="C16_depth (every handler invocation made while another handler runs is opted in: region switch on, or tracer allows re-entrant events and "
